@@ -108,6 +108,14 @@ func genCase(c int64) caseCfg {
 			}
 		}
 	}
+	if c%8 == 3 {
+		// scripted: four equal validators, one Byzantine (stale-polka template)
+		z := rng.Intn(4)
+		pw := []int64{1, 10, 33}[(c/8)%3]
+		cc.Powers, cc.Real, cc.Byz, cc.Profile = []int64{pw, pw, pw, pw}, []bool{true, true, true, true}, []int{z}, "tmpl-stale-polka"
+		cc.Real[z] = false
+		return cc
+	}
 	// optionally a full node that is not a validator
 	if rng.Float64() < 0.15 {
 		cc.Powers = append(cc.Powers, 0)
@@ -305,6 +313,11 @@ func runCase(run *lib.Run, c int64, base string) {
 		if adv.AttackLockAmnesia(false) {
 			run.Count("template_amnesia_staged", 1)
 		}
+	case "tmpl-stale-polka":
+		run.Count("template_stale_polka_cases", 1)
+		if adv.AttackStalePolka() {
+			run.Count("template_stale_polka_staged", 1)
+		}
 	case "tmpl-amnesia-crash":
 		if adv.AttackLockAmnesia(true) {
 			run.Count("template_amnesia_crash_staged", 1)
@@ -397,5 +410,6 @@ func main() {
 	run.Require("runs_with_locked", 10)
 	run.Require("byz_votes", 100)
 	run.Require("crashes", 20)
+	run.Require("template_stale_polka_staged", 10)
 	os.Exit(run.Finish())
 }
